@@ -277,12 +277,18 @@ func (g *seqGen) genOp() seqOp {
 	case "SetExpiresAfter", "SetRefreshableAfter":
 		op.D, op.DK = g.dur()
 	case "Get", "Refresh":
+		if g.rng.Intn(6) == 0 {
+			op.CC = 1
+		}
 		op.V = g.val()
 		op.Ld = pick(g.rng, "val", "val", "val", "err", "nf", "nfw")
 		if g.rng.Intn(30) == 0 {
 			op.Ld = "panic"
 		}
 	case "BulkGet", "BulkRefresh":
+		if g.rng.Intn(6) == 0 {
+			op.CC = 1
+		}
 		op.V = g.val()
 		g.next += 2 * g.cfg.NK // bulk values are op.V + key (+ NK for the second loader invocation of the call)
 		op.Ks = g.keys()
